@@ -20,7 +20,8 @@ MIN_NONTRIVIAL = {"quick": 20000, "thorough": 400000}
 REQUIRED_COUNTERS = {"plans_with_greenlets": {"quick": 20, "thorough": 200},
                      "plans_with_frameless_ancestor_greenlets": {"quick": 20, "thorough": 200},
                      "extract_until_frame_limits": {"quick": 500, "thorough": 5000},
-                     "slices_checked": {"quick": 20000, "thorough": 400000}}
+                     "slices_checked": {"quick": 20000, "thorough": 400000},
+                     "calls_from_lookalike_modules": {"quick": 300, "thorough": 3000}}
 SHARD_TIMEOUT = {"quick": 400, "thorough": 5400}
 EXHAUSTIVE = {"quick": False, "thorough": False}
 
@@ -55,6 +56,8 @@ def worker(spec):
     interp = "%d.%d" % sys.version_info[:2]
     budget = ctxwork.Budget(spec.get("budget_s", 60))
     state = {}
+    import os
+    PKGDIR = os.path.dirname(os.path.abspath(stackscope.__file__))   # stackscope's own frames = code from there
 
     def truth_frames(start):
         out = []
@@ -78,7 +81,7 @@ def worker(spec):
         res.evaluations += 1
         res.count("slices_checked")
         got = [f.pyframe for f in got_stack.frames]
-        mine = [f for f in got if (f.f_globals.get("__name__") or "").startswith("stackscope.")]
+        mine = [f for f in got if os.path.dirname(os.path.abspath(f.f_code.co_filename)) == PKGDIR]
         bad = None
         if len(got) != len(exp) or any(a is not b for a, b in zip(got, exp)):
             bad = "frames differ"
@@ -138,7 +141,32 @@ def worker(spec):
                         res.count("extract_until_frame_limits")
                         check(("until-frame", o, i, None), "extract_until",
                               extract_until(T[i], limit=T[o], with_contexts=False), T[o:i + 1])
+        # the caller may live in a module whose name merely *begins* like stackscope's (a plug-in, a vendored
+        # helper): its frames are the caller's, not stackscope's own
+        for modname in ("stackscope_addon", "stackscopex.sub", "stackscope._tests.lookalike"):
+            tramp, FR = trampoline(modname)
+            res.count("calls_from_lookalike_modules")
+            check(("lookalike-since", modname, None, None), "extract_since", tramp(extract_since, None, with_contexts=False),
+                  T + [FR[0]])
+            check(("lookalike-since", modname, 0, None), "extract_since", tramp(extract_since, T[0], with_contexts=False),
+                  T + [FR[0]])
+            check(("lookalike-slice", modname, None, 1), "StackSlice",
+                  tramp(extract, StackSlice(limit=1), with_contexts=False), [FR[0]])
+            check(("lookalike-slice", modname, N - 1, None), "StackSlice",
+                  tramp(extract, StackSlice(outer=T[N - 1]), with_contexts=False), [T[N - 1], FR[0]])
+            check(("lookalike-slice", modname, 0, 2), "StackSlice",
+                  tramp(extract, StackSlice(outer=T[0], limit=2), with_contexts=False), (T + [FR[0]])[:2])
         return N
+
+    TRAMPS = {}
+
+    def trampoline(modname):
+        if modname not in TRAMPS:
+            ns = {"__name__": modname, "sys": sys, "FR": [None]}
+            exec(compile("def tramp(fn, *a, **k):\n    FR[0] = sys._getframe(0)\n    return fn(*a, **k)\n",
+                         "<%s>" % modname, "exec"), ns)
+            TRAMPS[modname] = (ns["tramp"], ns["FR"])
+        return TRAMPS[modname]
 
     def lvl(k, plan_):
         state["calllog"].append(sys._getframe(0))
